@@ -378,7 +378,10 @@ def orchestrate(pid, tier, seed, jobs=None, replay=None):
     for he in agg['harness_errors'][:5]:
         inconclusive.append('harness error in %s/%s: %s' % (he['kind'], he['idx'], he['tb'][-600:].replace('\n', ' | ')))
     # floors
-    floors = getattr(mod, 'FLOORS', {}).get(tier, {})
+    floors = getattr(mod, 'FLOORS', {}).get('quick', {})
+    if tier == 'thorough':
+        # the thorough tier must reach every deciding clause at least twice as often as the quick tier's floor
+        floors = {k: 2 * v for k, v in floors.items()}
     if not replay:
         for name, floor in floors.items():
             have = agg['counters'].get(name, agg['classes'].get(name, 0))
